@@ -39,8 +39,14 @@ THEOREMS = [
     'CC.C09_two_sided', 'CC.C09_two_sided_dc', 'CC.C09_two_sided_lines',
     'CC.C09_kcl_instant_circuit', 'CC.C09_superpose_sources_reported',
 ]
-OPEN_STATEMENTS = ['CC.C09_once_statement (false after fix 6e56e9e for chains of frequencies: C09_once_counterexample)']
+OPEN_STATEMENTS = [
+    'CC.C09_once_statement (false after fix 6e56e9e for chains of frequencies: C09_once_counterexample)',
+    'the spectral line at w_k is the peak phasor of C02 at w_k: by construction of FrequencyDomainSolution / correspondence and oracle only (C09_line is rfl bookkeeping)',
+    "reproduction of a periodic source's waveform up to the truncation of the retained harmonics: oracle only (C09_source_reconstruction is the one-term identity)",
+    'superposition of sources for the networks the code builds for each source alone: C09_superpose_sources_reported assumes the per-frequency networks in skeleton form withSrc bs s and covers potentials and voltages only',
+]
 ASSUMPTIONS = [
+    'C09_line, C09_kcl_instant, C09_superpose_sources and C09_source_reconstruction are identities without a model term; the statements about the code are C09_freqs_*, C09_once_*, C09_two_sided*, C09_kcl_instant_circuit and C09_superpose_sources_reported — lines = C02 phasors and waveform reproduction rest on the oracle',
     'cos, sin, abs, angle of numpy are parameters: the model evaluates a line from c = cos(w t), s = sin(w t) computed by numpy; C09_time_function proves |X|cos(wt + arg X) = X.re·c − X.im·s over the complex numbers',
     'the per-frequency networks are the implementation\'s own transform outputs (C02/C07), their solutions the solver\'s (C01)',
     'binary64 products k·w0 are exact in the exact tier (dyadic w0); floor(w_max/w0) cases where float and exact floor differ are skipped as tie margin',
